@@ -175,6 +175,7 @@ var (
 	litNil   = eLit{"nil", func() interface{} { return nil }}
 	litSl8   = eLit{"[8]", func() interface{} { return []interface{}{int64(8)} }}
 	litSl1   = eLit{"[1]", func() interface{} { return []interface{}{int64(1)} }}
+	litSl89  = eLit{"[8, 9]", func() interface{} { return []interface{}{int64(8), int64(9)} }}
 	litSl56  = eLit{"[5, 6]", func() interface{} { return []interface{}{int64(5), int64(6)} }}
 	litSl777 = eLit{"[7, 7, 7]", func() interface{} { return []interface{}{int64(7), int64(7), int64(7)} }}
 	litSl0   = eLit{"[]", func() interface{} { return []interface{}{} }}
@@ -395,6 +396,40 @@ func buildAlphabet() []op {
 	add("typed/index-write", false, sLet{idx(idx(ts, litInt(0)), litInt(0)), litStr("w")})
 	add("alias/typed-string", true, sLet{x, mem(st, "B")})
 	add("alias/typed-string", false, sLet{x, idx(ts, litInt(0))})
+	// P. the typed slice through an alias / sub-slice u; append of operands with
+	// different static element types, in both orders ([]int64 + untyped list,
+	// untyped list + []int64, []float64 + []int64, []int64 + []float64)
+	u, tf, st2 := v("u"), v("tf"), v("st2")
+	add("typed/alias", false, sLet{u, t})
+	add("typed/alias", false, sLet{u, slc(t, litInt(0), litInt(2))})
+	add("typed/alias", false, sLet{u, slc(t, litInt(1), nil)})
+	add("typed/alias", false, sLet{u, slc(u, litInt(0), litInt(1))})
+	add("typed/index-write", false, sLet{idx(u, litInt(0)), litInt(7)})
+	add("typed/index-write", false, sLet{idx(u, ln("u", 0)), litInt(9)})
+	add("typed/append", false, sAddEq{u, litInt(9)})
+	add("append/mixed", false, sLet{x, eAdd{u, litSl8}})
+	add("append/mixed", false, sLet{x, eAdd{u, litSl89}})
+	add("append/mixed", false, sAddEq{u, litSl8})
+	add("append/mixed", false, sLet{x, eAdd{t, litSl8}})
+	add("append/mixed", false, sLet{x, eAdd{b, t}})
+	add("append/mixed", false, sLet{x, eAdd{b, u}})
+	add("append/mixed", false, sAddEq{b, u})
+	add("append/mixed", false, sLet{x, eAdd{litSl8, t}})
+	add("append/mixed", false, sLet{x, eAdd{tf, t}})
+	add("append/mixed", false, sLet{x, eAdd{tf, u}})
+	add("append/mixed", false, sAddEq{tf, u})
+	add("append/mixed", false, sLet{x, eAdd{tf, litSl8}})
+	add("append/mixed", false, sLet{x, eAdd{u, tf}})
+	add("append/mixed", false, sLet{x, eAdd{u, t}})
+	add("typed/store", false, sLet{idx(tf, litInt(0)), litInt(9)})
+	add("typed/store", false, sLet{idx(tf, litInt(0)), litStr("z")})
+	add("typed/index-read", false, sExpr{idx(tf, litInt(0))})
+	add("len", false, sExpr{eLen{tf}})
+	// Q. a second value of the same struct type: its fields are its own
+	add("struct/second-value", false, sLet{idx(mem(st2, "D"), litStr("n")), litInt(7)})
+	add("struct/second-value", false, sExpr{mem(st2, "D")})
+	add("struct/second-value", false, sLet{mem(st2, "A"), litInt(9)})
+	add("struct/second-value", false, sAddEq{mem(st2, "C"), litInt(6)})
 	// O. script functions that mutate, append to or re-slice their parameter
 	z := v("z")
 	add("call", true, sCall{"z", []stmt{sLet{idx(z, litInt(0)), litInt(9)}}, a})
@@ -407,6 +442,7 @@ func buildAlphabet() []op {
 	add("call", false, sCall{"z", []stmt{sLet{mem(z, "n"), litInt(2)}}, mm})
 	add("call", false, sCall{"z", []stmt{sLet{idx(z, litInt(0)), litStr("y")}}, s})
 	add("call", false, sCall{"z", []stmt{sLet{idx(z, litInt(0)), litInt(9)}}, t})
+	add("call", false, sCall{"z", []stmt{sAddEq{z, litSl8}}, u})
 
 	seen := map[string]bool{}
 	for i, o := range ops {
@@ -434,6 +470,7 @@ var coreIDs = map[string]bool{
 	`s[<len s>] = "z"`: true, `x[0] = 9`: true, `x[0] = "z"`: true,
 	`t[0] = 9`: true, `st.A = 9`: true, `st.C = a`: true, `x = st.B`: true,
 	`func(z) { z[0] = 9 }(a)`: true, `func(z) { z += 9 }(b)`: true,
+	`u = t[0:2]`: true, `x = u + [8]`: true, `st.D["n"] = 5`: true,
 }
 
 // ---------- initial configurations ----------
@@ -446,13 +483,15 @@ type config struct {
 
 func baseModel() map[string]interface{} {
 	return map[string]interface{}{
-		"m":  map[interface{}]interface{}{"k": int64(1), int64(2): "v"},
-		"s":  "abc",
-		"x":  nil,
-		"t":  make([]int64, 3),
-		"ts": []string{"p", "q"},
-		"tm": map[string]int64{"k": 1},
-		"st": &mst{C: []interface{}{}, D: map[string]int64{}},
+		"m":   map[interface{}]interface{}{"k": int64(1), int64(2): "v"},
+		"s":   "abc",
+		"x":   nil,
+		"t":   make([]int64, 3),
+		"ts":  []string{"p", "q"},
+		"tm":  map[string]int64{"k": 1},
+		"st":  &mst{C: []interface{}{}, D: map[string]int64{}},
+		"tf":  make([]float64, 1, 4),
+		"st2": &mst{C: []interface{}{}, D: map[string]int64{}},
 	}
 }
 
@@ -464,38 +503,43 @@ var baseSetup = []string{
 	`ts = []string{"p", "q"}`,
 	`tm = map[string]int64{"k": 1}`,
 	`st = make(struct { A int64, B string, C []interface, D map[string]int64 })`,
+	`tf = make([]float64, 1, 4)`,
+	`st2 = make(struct { A int64, B string, C []interface, D map[string]int64 })`,
 }
 
 var configs = []config{
 	{
 		name:  "b aliases a",
-		setup: []string{`a = [1, 2, 3]`, `b = a`},
+		setup: []string{`a = [1, 2, 3]`, `b = a`, `u = t`},
 		model: func() map[string]interface{} {
 			g := baseModel()
 			a := []interface{}{int64(1), int64(2), int64(3)}
 			g["a"], g["b"] = a, a
+			g["u"] = g["t"]
 			return g
 		},
 	},
 	{
 		name:  "a has spare capacity, b is a window on it",
-		setup: []string{`a = [1, 2, 3]`, `a += 4`, `b = a[1:3]`},
+		setup: []string{`a = [1, 2, 3]`, `a += 4`, `b = a[1:3]`, `u = t[0:2]`},
 		model: func() map[string]interface{} {
 			g := baseModel()
 			a := []interface{}{int64(1), int64(2), int64(3)}
 			a = append(a, int64(4))
 			g["a"], g["b"] = a, a[1:3]
+			g["u"] = g["t"].([]int64)[0:2]
 			return g
 		},
 	},
 	{
 		name:  "a holds a nested slice and the map; b is a one-element prefix",
-		setup: []string{`a = [[5], 2, 3]`, `b = a[0:1]`, `a[1] = m`},
+		setup: []string{`a = [[5], 2, 3]`, `b = a[0:1]`, `a[1] = m`, `u = t[1:2]`},
 		model: func() map[string]interface{} {
 			g := baseModel()
 			a := []interface{}{[]interface{}{int64(5)}, int64(2), int64(3)}
 			g["a"], g["b"] = a, a[0:1]
 			a[1] = g["m"]
+			g["u"] = g["t"].([]int64)[1:2]
 			return g
 		},
 	},
